@@ -12,6 +12,7 @@ pub(super) fn finalize_typed_function(
     nested_compiler.current.num_registers = nested_compiler.next_register;
     nested_compiler.current.global_layout = nested_compiler.build_global_layout();
     nested_compiler.current.compute_global_layout_hash();
+    nested_compiler.ensure_jumps_in_range(func.span)?;
     nested_compiler.current.finalize_bytecode();
 
     parent.mark_captures_from_nested(&nested_compiler);
